@@ -133,8 +133,8 @@ def run_function(kind, crate, fn_regex, tier, out):
             if (T, K) == (2, 1):   # cross-check the encoding on a second solver once
                 st2, _m2, dt2 = bmc.solve(md.lines, q, [], solver="cvc5", timeout_s=600)
                 sample["cvc5"] = st2
-                if st2 == "sat":
-                    out.append(_rec(name, "INCONCLUSIVE", time.time() - t1, notes=["z3 says unsat, cvc5 says sat"], sample=sample))
+                if st2 in ("sat", "error"):
+                    out.append(_rec(name, "INCONCLUSIVE", time.time() - t1, notes=["z3 says unsat, cvc5 says %s" % st2], sample=sample))
                     continue
             out.append(_rec(name, "PASS", time.time() - t1, sample=sample, solver_s=dt + dt0))
         elif st == "sat":
